@@ -309,35 +309,61 @@ def ident_ok(s):
 def key_ok(s):
     return bool(s) and all(33 <= ord(c) < 127 and c not in ',}' for c in s)
 
-def canonical_name(p):
-    """'von Last, Jr, First Middle' -- the BibTeX spelling of a person given by its parts"""
+def spellings(p):
+    """BibTeX spellings of a person given by its parts: 'von Last, Jr, First Middle', 'von Last, First Middle',
+    'von Last'.  A spelling that ends with a comma is not BibTeX name syntax (BibTeX: "name has a comma at the
+    end"), so a person with a lineage part but no first name, or several last tokens and nothing else, is not
+    expressible; an empty 'von Last' part (', Plato') is accepted."""
     first, middle, von, last, jr = [[S(t) for t in part] for part in p]
-    s = ' '.join(von + last)
-    if jr:
-        s += ', ' + ' '.join(jr)
-    if first or middle:
-        s += ', ' + ' '.join(first + middle)
-    return s
+    vl, j, fm = ' '.join(von + last), ' '.join(jr), ' '.join(first + middle)
+    out = []
+    if fm:
+        out.append('%s, %s, %s' % (vl, j, fm))
+        if not jr:
+            out.append('%s, %s' % (vl, fm))
+    elif not jr:
+        out.append(vl)
+    return out
+
+def person_spelling(p):
+    """a BibTeX name string that denotes exactly this person (None: not expressible in BibTeX name syntax)"""
+    from pybtex.database import Person
+    for part in p:
+        for t in part:
+            if not t:
+                return None
+    if not any(p):
+        return None
+    for text in spellings(p):
+        if not (balanced(text) and max_depth(text) < 90):
+            continue
+        try:
+            with strict_mode():
+                back = enc_person(Person(text))
+        except Exception:
+            continue
+        if norm(back) == norm(p):
+            return text
+    return None
 
 def persons_expressible(ps):
-    """the persons of one role are what BibTeX name syntax denotes for their canonical spelling"""
+    """every person of the role is denoted by some BibTeX name string, and the ' and '-joined list of these
+    strings denotes the list"""
     from pybtex.database import Person
     from pybtex.bibtex.utils import split_name_list
     if not ps:
         return False
+    texts = [person_spelling(p) for p in ps]
+    if any(t is None for t in texts):
+        return False
     for p in ps:
-        if not p[3]:
-            return False
         for part in p:
             for t in part:
-                if not t:
+                if not ws_normalised(S(t)):
                     return False
-    text = ' and '.join(canonical_name(p) for p in ps)
-    if not (balanced(text) and ws_normalised(text) and max_depth(text) < 90):
-        return False
     try:
         with strict_mode():
-            back = [enc_person(Person(n)) for n in split_name_list(text)]
+            back = [enc_person(Person(n)) for n in split_name_list(' and '.join(texts))]
     except Exception:
         return False
     return norm(back) == norm(ps)
@@ -415,6 +441,24 @@ def odd_roles(w):
 def type_field(w):
     return any(S(k).lower() == 'type' for e in w[0] for k, v in e[2])
 
+def lineage_without_first(w):
+    return any(p[4] and not p[0] and not p[1] for e in w[0] for r, ps in e[3] for p in ps)
+
+def str_not_reparsed(w):
+    """some person is not what Person(str(person)) denotes (Person.__str__ drops empty parts)"""
+    from pybtex.database import Person
+    try:
+        with strict_mode():
+            for e in w[0]:
+                for r, ps in e[3]:
+                    for p in ps:
+                        q = mk_person(p)
+                        if enc_person(Person(str(q))) != enc_person(q):
+                            return True
+    except Exception:
+        return True
+    return False
+
 def repr_key_clash(w):
     """BibliographyData.__repr__ puts a line break before the first occurrence of each key in
     repr(entries); that occurrence is not the key's own tuple"""
@@ -436,10 +480,7 @@ def _count(k):
 
 def oracle(fn, arg, out):
     """the property itself, on the implementation's outputs"""
-    m = _oracle(fn, arg, out)
-    if fn in (11, 12, 13, 15, 16):
-        _count('%s:%s' % (FUNCS[fn][0], 'fails' if m else 'judged' if _LAST[0] else 'outside the domain'))
-    return m
+    return _oracle(fn, arg, out)
 
 _LAST = [False]
 def _oracle(fn, arg, out):
@@ -483,14 +524,11 @@ KNOWN_SIGNATURES = {
     # the BibTeX writer re-escapes # % & _ ~ (set aside by the property text)
     'F18': lambda kind, fn, arg, detail: kind == 'oracle' and ((fn == 12 and arg[0] == 0 and has_five(arg[1])) or
                                                               (fn == 13 and 0 in arg[0] and has_five(arg[2]))),
-    # BibTeXML reader recognises only the exact role names author / editor
-    'FC02a': lambda kind, fn, arg, detail: kind == 'oracle' and ((fn == 12 and arg[0] == 1 and odd_roles(arg[1])) or
-                                                                (fn == 13 and 1 in arg[0] and odd_roles(arg[2]))),
     # YAML writer: a field called "type" overwrites the entry type
     'FC02b': lambda kind, fn, arg, detail: kind == 'oracle' and ((fn == 12 and arg[0] == 2 and type_field(arg[1])) or
                                                                 (fn == 13 and 2 in arg[0] and type_field(arg[2]))),
-    # BibliographyData.__repr__ breaks the line inside another token
-    'FC02c': lambda kind, fn, arg, detail: kind == 'oracle' and fn == 16 and repr_key_clash(arg[0]),
+    # Person.__repr__ = Person(str(person)): str() drops empty parts ('Plato' for first=Plato, 'Smith, Jr' for last+lineage)
+    'FC02e': lambda kind, fn, arg, detail: kind == 'oracle' and fn == 16 and str_not_reparsed(arg[0]),
 }
 
 def replay_known(finding):
@@ -571,6 +609,23 @@ TYPES = ['book', 'Article', 'inProceedings', 'MISC', 'x-y.z']
 FIELDS = ['title', 'Title', 'YEAR', 'note', 'Journal', 'x-ref', 'type', 'Type', 'b2', 'crossref']
 KEYS = ['k', 'Key1', 'knuth:1984', 'a', 'e', 'Case', 'x.y-z', 'K2', 'lamport94', 'it', 'T', '"q', 'k{1', 'UPPER']
 ROLES = ['author', 'editor', 'Author', 'EDITOR']
+
+# value shapes a serialisation library may re-type or re-shape
+RETYPE = ['007', '03', '0704', '0', '1e3', '1.5', '-1', '+2', '0x10', '0o7', '0b1', '1_000', '12:30', '1:2:3', '2001-01-01', '2001-01-01 10:00:00',
+          'true', 'True', 'yes', 'no', 'on', 'off', 'null', 'Null', 'NULL', 'None', '.inf', '.nan', 'y', 'n', '=', '<<',
+          '!x', '!!int 3', '*a', '|', '>', '- x', 'a: b', 'a:', ': a', '? x', '[a]', '[', ']', '@x', '`x', "'q'", "'", '"', '""', '{a}', '{}',
+          '<', '<b>x</b>', ']]>', '<!-- c -->', '&amp;', '&lt;', '%', '%YAML', '---', '...', 'a -- b', 'a\\nb', 'tr\u00e9s', '\u03a9', '\u65e5\u672c', 'x' * 3000,
+          ',', ', ', 'a,b']
+RETYPE_FIVE = ['&', '&a', 'a & b', '# c', 'a #b', '~', '1_0', 'a ~ b']      # contain one of the five characters (BibTeX: F18)
+RETYPE_WS = [' lead', 'trail ', ' both ', 'a  b', 'a\tb', 'a\nb', ' ', '\n', 'a \n b', '\u00a0x']  # not whitespace-normalised (outside the BibTeX domain)
+
+def explicit_persons():
+    """persons given by explicit parts, including those without a last name"""
+    A, B, V, L, J = ['Plato'], ['Bb'], ['von'], ['Last'], ['Jr']
+    shapes = [[A, [], [], [], []], [A, B, [], [], []], [[], [], V, [], []], [[], [], [], [], J], [[], [], [], L, J], [[], [], V, L, J],
+              [A, [], [], [], J], [[], B, [], L, []], [A, [], V, [], []], [A, B, V, L, J], [[], [], [], L, []], [A, [], [], L, []], [['A', 'B'], [], [], L, []],
+              [[], [], ['De'], L, []], [[], [], V, ['de'], []], [['jean'], [], [], L, []]]
+    return shapes
 
 def parse_person(name):
     from pybtex.database import Person
@@ -693,6 +748,9 @@ def mutate_xml(rng, x, depth=0):
         i = rng.choice([[], ['k'], ['K'], ['other']])
     return [tag, i, text, cs]
 
+def norm_str_db(w):
+    return w
+
 def model_tree_yaml(w):
     """the YAML tree of a database, built independently of pybtex (used to derive reader inputs)"""
     def person(p):
@@ -748,10 +806,24 @@ def xml_safe_tree(x):
     return bool(_XMLNAME.match(tag)) and all(ok(s) and '\n' not in s for s in i) and all(s and ok(s) for s in text) and all(xml_safe_tree(c) for c in cs)
 
 def xml_lib_ok(fn, arg):
-    """the XML library hypothesis covers element names that are XML names only: through FC02b a field
-    value can become an entry type (yaml before bibtexml in a chain)"""
-    if fn == 13 and 1 in arg[0] and 2 in arg[0]:
-        return all(_XMLNAME.match(v) for e in arg[2][0] for k, v in e[2] if k.lower() == 'type')
+    """the XML library hypothesis covers element names that are XML names only (anything else is a ParseError of the
+    library on reading): entry types, field names and roles of a database written as BibTeXML must be names; through
+    FC02b a field value can become an entry type (yaml before bibtexml in a chain)"""
+    if fn == 8:
+        w, fm = arg[0], [1]
+    elif fn == 12:
+        w, fm = arg[1], [arg[0]]
+    elif fn == 13:
+        w, fm = arg[2], arg[0]
+    else:
+        return True
+    if 1 not in fm:
+        return True
+    for e in w[0]:
+        if not _XMLNAME.match(e[1]) or not all(_XMLNAME.match(k) for k, v in e[2]) or not all(_XMLNAME.match(r) for r, ps in e[3]):
+            return False
+        if 2 in fm and not all(_XMLNAME.match(v) for k, v in e[2] if k.lower() == 'type'):
+            return False
     return True
 
 def gen(tier, rng):
@@ -819,6 +891,47 @@ def _gen(tier, rng):
                         continue
                     for f in (0, 1, 2):
                         yield ('exhaustive_persons', 12, [f, db_of(None, p)])
+    # persons given by explicit parts (also without a last name): all formats, chains, lower, pickle, repr
+    for p in explicit_persons():
+        yield ('exhaustive_persons', 3, [p]); yield ('exhaustive_persons', 10, [p])
+        w = db_of('T', p)
+        for f in (0, 1, 2):
+            yield ('explicit_persons', 12, [f, w])
+            yield ('explicit_persons', 12, [f, db_of(None, p, role='editor')])
+            yield ('explicit_persons', 12, [f, [[['k', 'book', [], [['author', [parse_person('Donald E. Knuth'), p, parse_person('de la Fontaine, Jean')]]]]], []]])
+        for c in ([0, 1], [0, 2], [1, 0], [2, 0], [2, 1, 0], [0, 0]):
+            for pc in (0, 1):
+                yield ('explicit_persons', 13, [c, pc, w])
+        yield ('explicit_persons', 15, [w]); yield ('explicit_persons', 16, [w]); yield ('explicit_persons', 11, [w])
+        yield ('explicit_persons', 4, [w]); yield ('explicit_persons', 6, [w]); yield ('explicit_persons', 8, [w])
+    # value shapes a serialisation library may re-type: in every position (field value, key, entry type, field name,
+    # preamble, each name part), every format; chains sampled in the quick tier
+    rt = RETYPE + RETYPE_FIVE + RETYPE_WS
+    for i, v in enumerate(rt):
+        tok_ok = v and not any(c.isspace() for c in v)
+        cases = [db_of(v), db_of('x', pre=[v]), db_of('x', pre=['p', v]), db_of('x', key=v), db_of('x', typ=v), db_of('x', field=v),
+                 [[['k1', 'book', [['title', v], ['note', v]], []], ['k2', 'misc', [['year', v]], []]], [v]]]
+        for pos in range(5):
+            p = [[], [], [], ['Last'], []]
+            p[pos] = [v] if pos != 3 else ['Last', v]
+            cases.append(db_of(None, p))
+            if tok_ok and pos == 3:
+                cases.append(db_of(None, [[v], [], [], [v], []]))
+        for ci, w in enumerate(cases):
+            for f in (0, 1, 2):
+                yield ('retype_shapes', 12, [f, w])
+            if ci < 2:
+                yield ('retype_shapes', 6, [w]); yield ('retype_shapes', 8, [w]); yield ('retype_shapes', 4, [w])
+                yield ('retype_shapes', 15, [w]); yield ('retype_shapes', 16, [w]); yield ('retype_shapes', 11, [w])
+            if ci < 4 and (not quick or (i + ci) % 4 == 0):
+                for c in ([2, 2], [2, 1], [0, 2], [2, 0], [1, 2, 0]):
+                    yield ('retype_shapes', 13, [c, (i + ci) % 2, w])
+        # the same shapes as leaves of reader trees
+        ty = model_tree_yaml(norm_str_db(db_of(v, [['Aa'], [], [], [v or 'L'], []], pre=[v or 'p'])))
+        if yaml_safe_tree(ty) or True:
+            yield ('retype_shapes', 7, [ty])
+        if xml_ok(v) and '\r' not in v:
+            yield ('retype_shapes', 9, [model_tree_xml(norm_str_db(db_of(v, [['Aa'], [], [], [v or 'L'], []])))])
     # identifiers: keys x types x field names x roles, all formats, lower, pickle, repr
     for key in KEYS:
         for typ in TYPES[:3]:
@@ -901,9 +1014,19 @@ def _gen(tier, rng):
             yield ('bib_texts_damaged', 18, [text[:j] + rng.choice(['', '{', '}', '"', ',', '@', ' # ', '=']) + text[j + rng.randint(0, 1):]])
 
 def extra_checks(ck, tier, rng):
-    # how many round trips the oracle really judged (inputs inside the property's domain)
-    yield {'name': 'oracle_domain_counts', 'evaluations': sum(v for k, v in _STATS.items() if not k.endswith('outside the domain')),
-           'failures': [], 'info': dict(sorted(_STATS.items()))}
+    # how many round trips the oracle really judges (inputs inside the property's domain); the oracle itself
+    # runs in the worker pool, so the generated cases are classified again here
+    import random as _r
+    st = {}
+    for stream, fn, arg in gen(tier, _r.Random(ck.seed)):
+        if fn in (11, 12, 13, 15, 16):
+            arg = norm(arg)
+            w = arg[1] if fn == 12 else arg[2] if fn == 13 else arg[0]
+            fm = [arg[0]] if fn == 12 else arg[0] if fn == 13 else [0, 1, 2] if fn == 16 else []
+            k = '%s:%s' % (FUNCS[fn][0], 'judged' if in_domain(w, fm) else 'outside the domain')
+            st[k] = st.get(k, 0) + 1
+    yield {'name': 'oracle_domain_counts', 'evaluations': sum(v for k, v in st.items() if k.endswith(':judged')),
+           'failures': [], 'info': dict(sorted(st.items()))}
     # library hypotheses, sampled directly: PyYAML and ElementTree reproduce string-leaf trees
     import yaml
     from xml.etree import ElementTree as ET
@@ -927,7 +1050,7 @@ def extra_checks(ck, tier, rng):
     yield {'name': 'library_hypotheses_sample', 'evaluations': n, 'failures': fails[:5],
            'info': 'PyYAML load(dump(t)) = t and ElementTree fromstring(tostring(e)) = e on the value / name / key pools'}
 
-RULE = ('pinned: the inputs of the findings (F18 five characters, FC02a role spelling, FC02b field "type", FC02c repr), the trailing-backslash tokens of DESIGN.md, empty databases; '
+RULE = ('pinned: the inputs of the findings (F18 five characters, FC02b field "type", FC02e repr of a person without last name; as regressions the repaired FC02a role spelling and FC02c repr), the trailing-backslash tokens of DESIGN.md, empty databases; '
         'exhaustive: Writer.quote/check_braces on every string over {a { } " \\ space} up to the length bound; the LaTeX encoder on every string over {a ~ space # \\ {}; '
         'one-field databases over a pool of 43 values (braces, quotes, backslashes, $ ^, whitespace shapes, unbalanced, non-ASCII) x 3 formats (value as field and as preamble); '
         'persons: 19 parsed names (parts of up to 6 tokens) x 4 role spellings x 3 formats and all part lists over a pool of 8 tokens (empty, trailing backslash, ~, braced); '
